@@ -1,6 +1,7 @@
 import datetime
 import decimal
 import functools
+import itertools
 import math
 import re
 
@@ -869,9 +870,13 @@ class ValueDecimal(Value):
 
 @functools.total_ordering
 class ValueFunc(Value):
+    _serial = itertools.count()
+
     def __init__(self, name):
         self.name = name
         self.secure = True
+        # creation order: the tie-break between functions of the same name
+        self.serial = next(ValueFunc._serial)
 
     def __hash__(self):
         return hash(self.name)
@@ -880,6 +885,8 @@ class ValueFunc(Value):
         return self is other
 
     def __lt__(self, other):
+        if isinstance(other, ValueFunc) and str(self) == str(other):
+            return self.serial < other.serial
         return str(self) < str(other)
 
     def __repr__(self):
